@@ -6,12 +6,17 @@
 (* mechanism transcription against the same clauses.                                   *)
 EXTENDS Integers, Sequences, FiniteSets, TLC
 
-Probes == {"p1", "p2", "p3", "p4", "p5", "p6", "p7", "p8", "p9", "p10", "bad", "bad2"}
-Valid(p) == p \notin {"bad", "bad2"}
+Probes == {"p1", "p2", "p3", "p4", "p5", "p6", "p7", "p8", "p9", "p10", "q2", "bad", "bad2", "bad3"}
+\* bad = 'f > zzz' (no such variable), bad2 = 'g > #nope' (no such meta-variable): refused with a selector error;
+\* bad3 = 'f > lam > a' where lam is a lambda: refused with a type error AFTER f, the first function of the path, was tooled
+Valid(p) == p \notin {"bad", "bad2", "bad3"}
+RefusalClass(p) == IF p = "bad3" THEN "TypeError" ELSE "SelectorError"
 Fns == {"f", "g"}
 \* functions a probe's selector names (they are instrumented while the probe is active)
 \* p10 = Probe('f > a', 'f(!a)'): one probe given the same selector twice, in two spellings (one interned object)
-Touches(p) == CASE p \in {"p1", "p2", "p5", "p7", "p8", "p9", "p10", "bad"} -> {"f"}
+\* q2 = a plain overlay (no probing(), hence no tooling of its own) tapping 'f > b' on functions that were tooled in place
+\* beforehand: only used in histories whose functions are pre-tooled
+Touches(p) == CASE p = "q2" -> {} [] p \in {"p1", "p2", "p5", "p7", "p8", "p9", "p10", "bad", "bad3"} -> {"f"}
                 [] p \in {"p3", "p6"} -> {"f", "g"}
                 [] p \in {"p4", "bad2"} -> {"g"}
 
@@ -22,7 +27,7 @@ RetOf(fn, v) == IF fn = "f" THEN 2 * v + 102 ELSE v + 100
 \* events (records as sets of <<key, value>>) that one call owes to probe p, in order
 EventsOf(p, fn, v) ==
   CASE p = "p1" /\ fn = "f" -> << {<<"a", v + 1>>} >>
-    [] p = "p2" /\ fn = "f" -> << {<<"b", 2 * v + 2>>} >>
+    [] p \in {"p2", "q2"} /\ fn = "f" -> << {<<"b", 2 * v + 2>>} >>
     [] p = "p3" /\ fn = "f" -> << {<<"fa", v + 1>>, <<"a", 2 * v + 102>>} >>
     [] p = "p4" /\ fn = "f" -> << {<<"a", 2 * v + 102>>} >>
     [] p = "p4" /\ fn = "g" -> << {<<"a", v + 100>>} >>
